@@ -44,7 +44,7 @@ class C05(Check):
                    'with several driver tasks the final cache entry must equal the effect of an operation that no '
                    'other completed operation on that parameter strictly follows (event sequence numbers)']
     PROBES = ('c05.recovery-same-value', 'c05.suppressed-unchanged', 'c05.repeated-error', 'c05.invalid-read',
-              'c05.concurrent-same-param')
+              'c05.concurrent-same-param', 'c05.late-activation')
 
     def gen_case(self, rng, tier):
         specs = []
@@ -87,7 +87,8 @@ class C05(Check):
         rng.shuffle(ops)
         shape = {'p_switch': rng.choice([0.1, 0.3, 0.6]), 'line_gaps': rng.choice([0, 0, 8, 12, 15]),
                  'seg_bias': rng.choice([1.0, 0.6]), 'lat_bias': rng.choice([1.0, 0.6]),
-                 'specs': specs, 'ntasks': ntasks, 'slow_consumer': rng.random() < 0.15}
+                 'specs': specs, 'ntasks': ntasks, 'slow_consumer': rng.random() < 0.15,
+                 'late_activate': rng.choice([None, None, 0, 0.001, 0.05, 0.3])}
         return {'shape': shape, 'ops': ops}
 
     def shrink_candidates(self, case):
@@ -205,6 +206,23 @@ class C05(Check):
                     run_op(op)
                 except Exception as e:   # noqa
                     errors.append(f'task {tid}: harness error {e!r}')
+        late = {}
+
+        def late_client():
+            # a second connection activates in the middle of the history: from its snapshot on, its stream
+            # must replay to the cache like the stream of the first one
+            if shape['late_activate']:
+                time.sleep(shape['late_activate'])
+            else:
+                sim.yield_point()
+            c2 = late['client'] = nodeworld.RawClient(world)
+            r2 = c2.request('activate', timeout=60)
+            late['activated'] = r2 is not None and r2[2].raw == b'active'
+            sim.count('c05.late-activation')
+        lt = None
+        if shape.get('late_activate') is not None:
+            lt = threading.Thread(target=late_client, name='late-client')
+            lt.start()
         if single:
             task(0)
         else:
@@ -213,10 +231,15 @@ class C05(Check):
                 t.start()
             for t in ths:
                 t.join()
+        if lt is not None:
+            lt.join()
+            ctx['late'] = late
         time.sleep(0.5)
         ctx['final'] = node.cache()
         ctx['final_states'] = {k: state_of(*k) for k in di_of}
         cl.drain(quiet=3.0, maxtime=60)
+        if late.get('client') is not None:
+            late['client'].drain(quiet=1.0, maxtime=30)
         ctx['exports'] = {(m, p.name): p.export for m in node.secnode.modules
                           for p in node.module(m).parameters.values() if p.name in [q for (mm, q) in di_of if mm == m]}
 
@@ -370,13 +393,22 @@ class C05(Check):
         for h in hist:
             if h['export']:
                 states.setdefault((h['mod'], h['export']), []).append((h['seq'], h['state']))
-        cl = ctx['client']
+        clients = [(ctx['client'], '')]
+        if ctx.get('late', {}).get('activated'):
+            clients.append((ctx['late']['client'], '|late'))
+        for cl, tag in clients:
+            res.extend(self._replay(ctx, states, cl, tag, cnt))
+        return res
+
+    @staticmethod
+    def _replay(ctx, states, cl, tag, cnt):
+        res = []
         last = {}
         for (_seq, _t, ln) in cl.lines:
             if ln.action not in ('update', 'error_update'):
                 continue
             if not ln.utf8 or not ln.json_ok or ':' not in (ln.spec or ''):
-                res.append(Violation('C05.malformed-update', 'line', f'{ln!r}'))
+                res.append(Violation('C05.malformed-update', 'line' + tag, f'{ln!r}'))
                 continue
             key = tuple(ln.spec.split(':', 1))
             st = nodeworld.msg_state(ln)
@@ -386,12 +418,12 @@ class C05(Check):
                     idx = i
                     break
             if idx is None:
-                res.append(Violation('C05.phantom-state', 'update',
+                res.append(Violation('C05.phantom-state', 'update' + tag,
                                      f'{ln!r} shows a state the cache never held; history of {key}: '
                                      f'{[s for _q, s in states.get(key, [])][-5:]}'))
                 continue
             if key in last and idx < last[key][0]:
-                res.append(Violation('C05.stream-order', 'reordered',
+                res.append(Violation('C05.stream-order', 'reordered' + tag,
                                      f'line {ln.idx} {ln!r} shows cache state #{idx} after line {last[key][1]} showed '
                                      f'the newer state #{last[key][0]}'))
             last[key] = (idx, ln.idx)
@@ -403,11 +435,11 @@ class C05(Check):
         for key, st in final.items():
             lst = states.get(key, [])
             if key not in last:
-                res.append(Violation('C05.final-mismatch', 'nothing', f'no message for exported parameter {key}'))
+                res.append(Violation('C05.final-mismatch', 'nothing' + tag, f'no message for exported parameter {key}'))
                 continue
             shown = lst[last[key][0]][1]
             if not (shown[0] == st[0] and shown[1] == st[1] and shown[-1] == st[-1]):
-                res.append(Violation('C05.final-mismatch', 'stale',
+                res.append(Violation('C05.final-mismatch', 'stale' + tag,
                                      f'replaying the stream gives {key} = {shown} but the cache holds {st}'))
         return res
 
